@@ -122,6 +122,8 @@ class Prop(core.Prop):
             for desc in (False, True):
                 for tzkind in ('utc', 'naive', '+0530', '-0500'):
                     yield {'time': True, 'unit': unit, 'desc': desc, 'tz': tzkind}
+                # a 365-day calendar declared on the time VARIABLE, queries after the leap day it lacks
+                yield {'time': True, 'unit': unit, 'desc': desc, 'tz': 'utc', 'calendar': 'noleap'}
 
     def expand(self, group):
         if group.get('time'):
@@ -133,6 +135,10 @@ class Prop(core.Prop):
                 for bopt in ('ignore', 'warn', 'error'):
                     for lr in ('None', 'nan'):
                         for part in ('in', 'out-far', 'out-near-lo', 'out-near-hi'):
+                            yield dict(group, method=method, clean=clean, bounds=bopt, lr=lr, part=part)
+                    # a fill on ONE side only: 'left' is the side of the smaller coordinate values
+                    for lr in ('left-nan', 'right-nan'):
+                        for part in ('in', 'out-near-lo', 'out-near-hi'):
                             yield dict(group, method=method, clean=clean, bounds=bopt, lr=lr, part=part)
 
     def build(self, c, rep, ctype='d'):
@@ -167,7 +173,9 @@ class Prop(core.Prop):
         qs = queries(c, e)
         judged = []
         for v in qs:
-            ok, inr = brute(method, c, e, v, has_b, lr)
+            # (a one-sided fill is classified like a two-sided one: between the outer coordinate value and
+            # the outer edge nothing is demanded)
+            ok, inr = brute(method, c, e, v, has_b, 'None' if lr == 'None' else 'nan')
             if method == 'bounds' and not has_b and not (min(c) <= v <= max(c)) and not uniform:
                 continue          # outer edges undefined by the file (uniform grids: half a step out)
             lo_, hi_ = min(e[0], e[-1]), max(e[0], e[-1])
@@ -195,6 +203,10 @@ class Prop(core.Prop):
         kw = dict(method=method, clean=clean, bounds=bopt)
         if lr == 'nan':
             kw.update(left=np.nan, right=np.nan)
+        elif lr == 'left-nan':
+            kw.update(left=np.nan)
+        elif lr == 'right-nan':
+            kw.update(right=np.nan)
         self.warned[:] = []
         vs = []
         raised = None
@@ -255,12 +267,20 @@ class Prop(core.Prop):
                                        'bounds="warn" but no warning for %s' % vals.tolist(), **scope))
                     gm = np.atleast_1d(np.ma.getmaskarray(idx))
                     got = np.atleast_1d(np.ma.getdata(idx))
-                    if lr == 'nan' and clean == 'mask':
+                    side_filled = (lr == 'left-nan' and part == 'out-near-lo') or \
+                        (lr == 'right-nan' and part == 'out-near-hi')
+                    if lr in ('left-nan', 'right-nan') and clean == 'mask' and not side_filled:
+                        # the fill was asked for on the OTHER side: these queries take the end cell, unmasked
+                        if gm.any() and method != 'exact':
+                            vs.append(viol('wrong-side-masked', sig, 'only %s is nan, but values %s beyond the '
+                                           'other end came back masked: %s' % (lr.split('-')[0], vals.tolist(), idx),
+                                           **scope))
+                    elif (lr == 'nan' or side_filled) and clean == 'mask':
                         if not gm.all():
                             vs.append(viol('out-of-range-not-masked', sig,
                                            'left/right=nan, clean=mask: values %s -> %s' % (vals.tolist(), idx),
                                            **scope))
-                    elif bopt == 'ignore' and lr == 'nan' and clean == 'none':
+                    elif bopt == 'ignore' and (lr == 'nan' or side_filled) and clean == 'none':
                         pass      # nan cast to an integer: unspecified, the user asked for no cleaning
                     elif method == 'bounds' and bopt == 'ignore':
                         pass      # clamped end cell, bounds ignored as requested
@@ -303,6 +323,14 @@ class Prop(core.Prop):
         step = datetime.timedelta(**{unit: 1})
         qnum = [0., 1., 2.9, 3.1, 6., 9., 11., 21., 29., 30.]
         qdt = [ref + q * step for q in qnum]
+        if case.get('calendar'):
+            tv.calendar = case['calendar']
+            # in a calendar without 29 February the instant q units after the reference is one real day later
+            # once it passes 28 Feb 24:00 (12 hours after the reference)
+            def real(q):
+                t = ref + q * step
+                return t + datetime.timedelta(days=1) if t >= datetime.datetime(2000, 2, 29, tzinfo=datetime.timezone.utc) else t
+            qdt = [real(q) for q in qnum]
         if tz == 'naive':
             qdt = [t.replace(tzinfo=None) for t in qdt]
         elif tz == '+0530':
@@ -314,9 +342,9 @@ class Prop(core.Prop):
         c = vals.tolist()
         e = edges_for(c)
         scope = dict(method=method, rep='none', direction='desc' if desc else 'asc', tz=tz, unit=unit,
-                     front='time2idx')
+                     front='time2idx', calendar=case.get('calendar') or 'standard')
         sig = ('time2idx', method, scope['direction'], tz)
-        st = [h64('c16t', unit, desc, tz)]
+        st = [h64('c16t', unit, desc, tz, case.get('calendar'))]
         self.warned[:] = []
         vs = []
         try:
@@ -335,5 +363,5 @@ class Prop(core.Prop):
         if bad:
             vs.append(viol('wrong-cell', sig, 'time coordinate %s: value %r -> %r expected %r (%d wrong)'
                            % (c, bad[0][0], bad[0][1], bad[0][2], len(bad)), **scope))
-        return result('viol' if vs else 'ok-time', vs, st, 1, h64('c16t', unit, desc, tz, method),
+        return result('viol' if vs else 'ok-time', vs, st, 1, h64('c16t', unit, desc, tz, method, case.get('calendar')),
                       h64(got.tolist()) if not vs else None)
